@@ -377,7 +377,7 @@ func (x *Exec) wf(st *State, t Term, typ types.Type) {
 		}
 	case *types.Slice:
 		if !isLiteral(t) {
-			x.vc.assert(Term{fmt.Sprintf("(and (<= 0 (s-arr %[1]s)) (= 0 (s-off %[1]s)) (<= 0 (s-len %[1]s)) (<= (s-len %[1]s) (s-cap %[1]s)) (=> (= (s-arr %[1]s) 0) (= (s-cap %[1]s) 0)))", t.S), SBool})
+			x.vc.assert(Term{fmt.Sprintf("(and (<= 0 (s-arr %[1]s)) (= 0 (s-off %[1]s)) (<= 0 (s-len %[1]s)) (<= (s-len %[1]s) (s-cap %[1]s)) (<= (s-cap %[1]s) 9223372036854775807) (=> (= (s-arr %[1]s) 0) (= (s-cap %[1]s) 0)))", t.S), SBool})
 		}
 	case *types.Pointer, *types.Map:
 		if !isLiteral(t) {
